@@ -22,8 +22,8 @@ ASSUMPTIONS = [
     "'served exactly once' is claimed for constant intervals D >= dt without t_start offset, as in the property; for D < dt, fixed and logarithmic schedules only ordering/genuineness/finalisation are claimed",
     "stop requests: a tracker raises StopIteration or FinishedSimulation at its j-th call (j symbolic via enumeration 1..3)",
 ]
-STUBS = H_STUBS = ["float() identity on symbolic reals in pde.solvers.*, pde.trackers.*, pde.backends.numba._solvers", "nb.typeof -> None"]
-OUTSIDE = ["adaptive steppers ('exactly at the scheduled time' clause): not encoded yet", "more than K steps per run", "MPI", "RealtimeInterrupts"]
+STUBS = H_STUBS = ["float() identity on symbolic reals in pde.solvers.*, pde.trackers.*, pde.backends.numba._solvers", "nb.typeof -> None", "adaptive cases: OnlineStatistics.add (step-size diagnostics) counts only; in the 'any-adjusted-step' cases _make_dt_adjuster is a non-deterministic stub returning any step in [0.01*dt, 4*dt] (its documented bracket; covers one rejection followed by a shrink), at most `attempts` adjustments per run; the rate is constant so the real error estimate is exactly 0 and every step is accepted"]
+OUTSIDE = ["adaptive steppers: rejected steps as such (the error estimate is 0 in the harness; their effect on the step size is covered by the adjuster stub), stop requests during adaptive runs, more than 2 trackers", "more than K steps per run", "MPI", "RealtimeInterrupts"]
 BOUNDS = {"max_paths": 8000, "tmax": 900.0, "query_timeout_ms": 10000}
 CASE_TIMEOUT = 1700
 EXPLANATION = "all paths of the real controller/tracker/interrupt code up to K steps; per path the call records of every tracker are compared with the schedule for all dt, ranges and intervals"
@@ -51,10 +51,19 @@ def cases(tier, seed):
         out.append(_case(f"numpy:const<dt+const:dt=1:{rng}:K=3", backend="numpy", K=3, range=rng, dt=1, a=0.5, trackers=[any_, ge1]))
         out.append(_case(f"numpy:storage:dt=1:{rng}:K=4", backend="numpy", K=4, range=rng, dt=1, a=0.5, trackers=[ge1], storage=True))
         out.append(_case(f"numpy:fixed2+const:dt=1:{rng}:K=3", backend="numpy", K=3, range=rng, dt=1, a=0.5, trackers=[{"kind": "fixed", "L": 2}, ge1]))
+    # one interrupt instance handed to several trackers (adjacent and non-adjacent): every tracker still gets the full schedule
+    out.append(_case("numpy:shared-interrupt-instance:[a,b,a]:dt=1:any:K=3", backend="numpy", K=3, range="any", dt=1, a=0.5, trackers=[ge1, ge1, {"share": 0, "min_ratio": 1}]))
+    out.append(_case("numpy:shared-interrupt-instance:[a,a,a]:dt=1:whole:K=3", backend="numpy", K=3, range="whole", dt=1, a=0.5, trackers=[ge1, {"share": 0, "min_ratio": 1}, {"share": 0, "min_ratio": 1}]))
     for exc in ("StopIteration", "FinishedSimulation"):
         for j in (1, 2) if q else (1, 2, 3):
             out.append(_case(f"numpy:stop:{exc}:call={j}:2const:dt=1:any:K=3", backend="numpy", K=3, range="any", dt=1, a=0.5, trackers=[any_, any_], stop={"tracker": 0, "at_call": j, "exc": exc, "reason": "why" if j == 2 else None}))
     out.append(_case("numpy:stop:second-tracker:call=2:2const:dt=1:any:K=3", backend="numpy", K=3, range="any", dt=1, a=0.5, trackers=[any_, any_], stop={"tracker": 1, "at_call": 2, "exc": "StopIteration", "reason": None}))
+    for backend in ("numpy", "numba"):
+        for solver in ("euler", "runge-kutta"):
+            out.append({"name": f"adaptive:{backend}:{solver}:real-adjuster:2const", "scenario": "scenario_adaptive", "cfg": {"backend": backend, "solver": solver, "trackers": [{}, {}], "periods": 2 if q else 3, "dt0": 1 if q else "sym"}})
+            out.append({"name": f"adaptive:{backend}:{solver}:real-adjuster:1const:dt0=sym", "scenario": "scenario_adaptive", "cfg": {"backend": backend, "solver": solver, "trackers": [{}], "periods": 3 if q else 4, "dt0": "sym"}})
+    out.append({"name": "adaptive:numpy:euler:any-adjusted-step:2const", "scenario": "scenario_adaptive", "cfg": {"backend": "numpy", "solver": "euler", "trackers": [{"lo": 0.5, "hi": 2}, {}] if q else [{}, {}], "periods": 1 if q else 2, "adjuster": "stub", "attempts": 4 if q else 5}})
+    out.append({"name": "adaptive:numpy:runge-kutta:any-adjusted-step:1const:tstart", "scenario": "scenario_adaptive", "cfg": {"backend": "numpy", "solver": "runge-kutta", "trackers": [{"lo": 0.5, "hi": 2}] if q else [{}], "periods": 2 if q else 3, "adjuster": "stub", "attempts": 4 if q else 5, "t_start": "sym"}})
     if not q:
         out.append(_case("numba:2const>=dt:dt=1:whole:K=4", backend="numba", K=4, range="whole", dt=1, a=0.5, trackers=[ge1, ge1]))
         out.append(_case("numpy:3const:dt=1:any:K=3", backend="numpy", K=3, range="any", dt=1, a=0.5, trackers=[ge1, any_, ge1]))
@@ -116,6 +125,113 @@ def scenario_c08(env, cfg):
     else:
         _check_stop(env, cfg, r)
     env.homogeneous("time-scale-homogeneity")
+    env.reach()
+
+
+# ----------------------------------------------------------------------------- adaptive steppers
+
+
+def _adjuster_stub(env, mods, lo, cap):
+    """non-deterministic replacement of pde.solvers.base._make_dt_adjuster: the adjusted step is a fresh symbol inside the
+    documented bracket [lo*dt, 4*dt] (one rejection and the following shrink are covered by lo = 0.01)"""
+    count = [0]
+
+    def make(dt_min, dt_max):
+        def adjust_dt(dt, error_rel):
+            j = count[0]
+            count[0] += 1
+            if j >= cap:
+                env.assume(False)  # cut: more step attempts than the stated bound
+            r = env.real(f"adj{j}")
+            env.assume(r >= lo * dt)
+            env.assume(r <= 4 * dt)
+            env.assume(r >= dt_min)
+            env.assume(r <= dt_max)
+            return r
+
+        return adjust_dt
+
+    for name in ("pde.solvers.base", "pde.solvers.euler", "pde.backends.numba._solvers"):
+        saved = getattr(mods[name], "_make_dt_adjuster")
+        setattr(mods[name], "_make_dt_adjuster", make)
+    return saved
+
+
+def scenario_adaptive(env, cfg):
+    """adaptive steppers: every scheduled time is served exactly once, *at* it (up to the controller's 1e-6 relative slack)"""
+    import importlib
+
+    import pde
+    from pde.solvers.controller import Controller
+
+    mods = H.prepare(env.sym)
+    dt0 = env.real("dt0", 1 / 8, 8) if cfg.get("dt0", 1) == "sym" else env.fixed("dt0", cfg.get("dt0", 1))
+    ts = env.real("tstart", -4, 4) if cfg.get("t_start") == "sym" else 0
+    Ds = []
+    for i, spec in enumerate(cfg["trackers"]):
+        D = env.real(f"D{i}", spec.get("lo", 0.25), spec.get("hi", 4))
+        if i > 0:
+            env.assume(D >= Ds[0] / 2)
+            env.assume(D <= Ds[0] * 2)
+        Ds.append(D)
+    T = env.real("T", 0, 64)
+    env.assume(T > 0)
+    env.assume(T <= cfg.get("periods", 3) * Ds[0])
+    t_end = ts + T
+    u0 = env.real("u0", -8, 8)
+    cval = env.fixed("c", 1)
+    eq = H.make_pde(0, cval, None)  # constant rate: the scheme's error estimate is exactly 0 (every step accepted)
+    saved = None
+    if cfg.get("adjuster") == "stub":
+        saved = _adjuster_stub(env, mods, cfg.get("lo", 0.01), cfg.get("attempts", 6))
+    # diagnostics only (running mean/variance of the step sizes: products of symbolic steps): counting stub
+    stats_cls = importlib.import_module("pde.tools.math").OnlineStatistics
+    saved_add = stats_cls.add
+
+    def _count_only(self, value):
+        self.count += 1
+
+    stats_cls.add = _count_only
+    try:
+        grid = pde.UnitGrid([1])
+        data = np.empty(1, dtype=object if env.sym else float)
+        data[0] = u0
+        init = pde.ScalarField(grid, data, dtype=object if env.sym else float)
+        Recorder = H.make_tracker_class()
+        ti = mods["pde.trackers.interrupts"]
+        trackers = [Recorder(ti.ConstantInterrupts(D), None) for D in Ds]
+        smod, scls = H.SOLVERS[cfg.get("solver", "euler")]
+        solver = getattr(importlib.import_module(smod), scls)(eq, backend=cfg.get("backend", "numpy"), adaptive=True)
+        ctrl = Controller(solver, t_range=(ts, t_end), tracker=trackers)
+        final = ctrl.run(init, dt=dt0)
+    finally:
+        stats_cls.add = saved_add
+        if saved is not None:
+            for name in ("pde.solvers.base", "pde.solvers.euler", "pde.backends.numba._solvers"):
+                setattr(mods[name], "_make_dt_adjuster", saved)
+    t_final = ctrl.info["t_final"]
+    env.observe("t_final", t_final)
+    # "exactly": the controller deliberately treats times closer than 1e-6*dt as equal, where dt is the current
+    # step estimate (<= 4 * the last step <= 4 * the smallest interval, or the initial dt)
+    tol = 1e-5 * (dt0 + O.total(Ds))
+    nsched = cfg.get("periods", 3) * 2 + 1
+    for i, (tr, D) in enumerate(zip(trackers, Ds)):
+        times = [rec[0] for rec in tr.records]
+        env.observe(f"times{i}", times)
+        env.observe(f"nrec{i}", len(times))
+        for x, y in zip(times, times[1:]):
+            env.prove(f"adaptive:tracker{i}:call-times-strictly-increasing", y > x)
+        sched = [ts + k * D for k in range(nsched + 1)]
+        for k, sk in enumerate(sched):
+            cnt = O.total(O.ite(abs(t - sk) <= tol, 1, 0) for t in times) if times else 0
+            # (due = reached: the run may end up to 1e-6*dt before t_end, the controller's "equal up to round-off" band;
+            #  that t_final is within the band of t_end is its own obligation below)
+            env.prove(f"adaptive:tracker{i}:scheduled-time-served-exactly-once-at-it:k={k}", O.implies(sk <= t_final, cnt == 1))
+        for j, t in enumerate(times):
+            env.prove(f"adaptive:tracker{i}:call-is-at-a-scheduled-time-or-final:{j}", O.lor(*[abs(t - sk) <= tol for sk in sched], abs(t - t_final) <= 0))
+        env.prove(f"adaptive:tracker{i}:finalized-exactly-once", tr.finalized == 1)
+    env.prove("adaptive:t_final-reaches-t_end", O.land(t_final >= t_end - tol, t_final <= t_end + tol))
+    env.close("adaptive:final-state=u0+c*(t_final-t_start)", final.data[0], u0 + cval * (t_final - ts), scale=64)
     env.reach()
 
 
@@ -227,6 +343,18 @@ CANARIES = [
         "case": "numpy:storage:dt=1:any:K=4",
         "patch": [("pde.solvers.controller:Controller._run_main_process", "self.trackers.handle(state, t, atol=stepper_atol)", "self.trackers.handle(state, t, atol=tracker_atol)")],
         "expect": "frames",
+    },
+    {
+        "name": "adaptive-run-uses-half-step-tracker-tolerance",
+        "case": "adaptive:numpy:euler:real-adjuster:2const",
+        "patch": [("pde.solvers.controller:Controller._run_main_process", "tracker_atol = stepper_atol if adaptive else 0.5 * dt", "tracker_atol = 0.5 * dt")],
+        "expect": "adaptive:.*(served-exactly-once|scheduled-time-or-final)",
+    },
+    {
+        "name": "shared-interrupt-only-unshared-from-the-previous-tracker",
+        "case": "numpy:shared-interrupt-instance:[a,b,a]:dt=1:any:K=3",
+        "patch": [("pde.trackers.base:TrackerCollection.from_data", "if id(tracker_obj.interrupt) in interrupt_ids:", "if trackers and tracker_obj.interrupt is trackers[-1].interrupt:")],
+        "expect": "served-exactly-once|frames|serves|increasing",
     },
     {
         "name": "stop-reason-dropped",
